@@ -164,7 +164,7 @@ def check_u64_grid(prop, tier, repo, verif):
     res = {'unit': 'bounded:u64_boundary_grid', 'engine': 'bounded run of the real assembler + processor on std::math::u64 and std::math::u256 (tools/u64probe)', 'status': 'ok',
            'failures': [], 'undecided': [], 'bounded': True,
            'bound': 'all 29 u64 procedures on every operand pair with limbs from a %d-value boundary set (0, 1, 2^31, 2^32-2, 2^32-1%s), shifts/rotations on all amounts 0..63, compared with native arithmetic incl. a sentinel below the operands; all 8 u256 procedures (add/sub/mul_unsafe, and, or, xor, eq_unsafe, iszero_unsafe) on 72 x 72 operand patterns (all-zero, all-ones, single boundary limbs in every position, half-full, alternating, 40 fixed pseudo-random boundary mixes) against limb-wise big-integer arithmetic' % (n, ', 2, 2^31-1' if n == 7 else '')}
-    binp, err = build_tool(repo, verif, 'u64probe')
+    binp, err = build_tool(repo, verif, 'u64probe', release=True)
     if binp is None:
         res['status'] = 'undecided'
         res['undecided'].append('u64probe does not build against the current tree: ' + err)
@@ -184,7 +184,7 @@ def check_u64_grid(prop, tier, repo, verif):
         pname = mm.group(1) if '::' in mm.group(1) else 'u64::' + mm.group(1)
         res['failures'].append({'obligation': '%s/bounded/u64_boundary_grid#%s' % (prop, pname), 'message': '%s deviates from the integer function' % pname,
                                 'rendered': ln, 'origins': ['stdlib/asm/math/u64.masm', 'stdlib/asm/math/u256.masm'],
-                                'failing_input': {'case': mm.group(2)[:300], 'cmd': '.cache/target/debug/u64probe %d' % n}})
+                                'failing_input': {'case': mm.group(2)[:300], 'cmd': '.cache/target/release/u64probe %d' % n}})
     if res['failures']:
         res['status'] = 'fail'
     res['wall_s'] = round(time.time() - t0, 1)
@@ -786,4 +786,118 @@ def check_decoder_model(prop, tier, repo, verif):
         res['status'] = 'fail'
     res['wall_s'] = round(time.time() - t0, 1)
     res['checker_cmd'] = 'tools/decmodel (built against the current tree): %s programs' % m.group(1)
+    return res
+
+
+def check_cycle_limit_sweep(prop, tier, repo, verif):
+    t0 = time.time()
+    res = {'unit': 'bounded:cycle_limit_sweep', 'engine': 'bounded run of the real assembler + processor (tools/limitprobe)', 'status': 'ok',
+           'failures': [], 'undecided': [], 'bounded': True,
+           'bound': '50 terminating programs covering every control-flow construct (multi-batch spans with NOOP padding, if / else, while, repeat, exec, call, syscall with kernel loops, dyncall / dynexec, nested): exact cycle count n, then every limit n-3 .. n+3 with expected_cycles 0 and m: success exactly when m >= n, otherwise CycleLimitExceeded(m); 20 non-terminating programs (loops in the root, in call / syscall / dyn targets) x 7 limits must stop with CycleLimitExceeded (watchdog host + wall-clock timeout); ExecutionOptions::new on the 301 x 301 grid of (max_cycles, expected_cycles) plus boundary cases'}
+    binp, err = build_tool(repo, verif, 'limitprobe')
+    if binp is None:
+        res['status'] = 'undecided'
+        res['undecided'].append('limitprobe does not build against the current tree: ' + err)
+        return res
+    try:
+        p = subprocess.run([binp], stdout=subprocess.PIPE, stderr=subprocess.PIPE, text=True, timeout=1500)
+        out = p.stdout
+    except subprocess.TimeoutExpired as e:
+        out = (e.stdout or b'').decode() if isinstance(e.stdout, bytes) else (e.stdout or '')
+    m = re.search(r'SUMMARY checks=(\d+) failures=(\d+)', out)
+    if not m:
+        res['status'] = 'undecided'
+        res['undecided'].append('limitprobe gave no summary (timeout / panic?): ' + out[-500:])
+        return res
+    n = 0
+    for ln in out.split('\n'):
+        if not ln.startswith('FAILCASE '):
+            continue
+        n += 1
+        text = ln[len('FAILCASE '):]
+        mm = re.search(r'program `([^`]+)`', text)
+        kind = 'options' if text.startswith('options') or 'ExecutionOptions' in text else ('limit-not-enforced' if ('Timeout' in text or 'WATCHDOG' in text or 'should be CycleLimit' in text) else 'wrong-outcome')
+        slug = '%s:%s' % (kind, re.sub(r'[^A-Za-z0-9_]+', '-', mm.group(1))[:40] if mm else str(n))
+        if any(f['obligation'].endswith('#' + slug) for f in res['failures']):
+            continue
+        res['failures'].append({'obligation': '%s/bounded/cycle_limit_sweep#%s' % (prop, slug), 'message': 'cycle limit not exact: %s' % text[:160],
+                                'rendered': text[:1500], 'origins': ['processor/src/system/mod.rs', 'processor/src/lib.rs', 'air/src/options.rs'],
+                                'failing_input': {'case': text[:900], 'cmd': '.cache/target/debug/limitprobe'}})
+    if int(m.group(2)) and not res['failures']:
+        res['failures'].append({'obligation': '%s/bounded/cycle_limit_sweep#failures' % prop, 'message': '%s checks failed' % m.group(2), 'rendered': out[-800:], 'origins': []})
+    if res['failures']:
+        res['status'] = 'fail'
+    res['wall_s'] = round(time.time() - t0, 1)
+    res['checker_cmd'] = 'tools/limitprobe (built against the current tree): %s checks' % m.group(1)
+    return res
+
+
+def check_instr_reference(prop, tier, repo, verif):
+    t0 = time.time()
+    res = {'unit': 'bounded:instr_reference', 'engine': 'bounded run of the real assembler + processor against reference instruction semantics written from docs/src/user_docs/assembly (tools/instrprobe, release build with debug assertions)', 'status': 'ok',
+           'failures': [], 'undecided': [], 'bounded': True,
+           'bound': '92056 cases: every field / comparison / ext2 / u32 / stack-manipulation / push / sdepth instruction in every immediate and parameter form (assertions with error codes, push in decimal / hex / lists / constants) on boundary operands (0, 1, 2, 2^16, 2^31, 2^32-1, 2^32, p-1, ...) in every operand position, initial depths 0..40, push / drop sequences through the overflow table, 6000 random instruction sequences; the complete final stack, failure kind and error code are compared; cases the docs call undefined are skipped'}
+    binp, err = build_tool(repo, verif, 'instrprobe', release=True)
+    if binp is None:
+        res['status'] = 'undecided'
+        res['undecided'].append('instrprobe does not build against the current tree: ' + err)
+        return res
+    p = subprocess.run([binp], stdout=subprocess.PIPE, stderr=subprocess.PIPE, text=True)
+    m = re.search(r'SUMMARY cases=(\d+) skipped=(\d+) disagreements=(\d+) failing_programs=(\d+)', p.stdout)
+    if not m:
+        res['status'] = 'undecided'
+        res['undecided'].append('instrprobe gave no summary (panic?): ' + (p.stdout + p.stderr)[-500:])
+        return res
+    for ln in p.stdout.split('\n'):
+        mm = re.match(r'FAILCASE \[(.*?)\] (.*?) :: (.*)', ln)
+        if not mm:
+            continue
+        group, prog, rest = mm.groups()
+        ins = re.sub(r'^begin\s+|\s+end$', '', prog.strip())
+        slug = re.sub(r'[^A-Za-z0-9_.]+', '-', ins)[:60]
+        res['failures'].append({'obligation': '%s/bounded/instr_reference#%s:%s' % (prop, group, slug), 'message': 'instruction deviates from the instruction reference: %s' % ins[:120],
+                                'rendered': ln[:1800], 'origins': ['assembly/src/assembler/instruction', 'processor/src/operations', 'processor/src/stack'],
+                                'failing_input': {'program': prog[:600], 'detail': rest[:900], 'cmd': ".cache/target/release/instrprobe --one '<program>' <stack values, top first>"}})
+    if int(m.group(3)) and not res['failures']:
+        res['failures'].append({'obligation': '%s/bounded/instr_reference#disagreements' % prop, 'message': '%s disagreements' % m.group(3), 'rendered': p.stdout[-800:], 'origins': []})
+    if res['failures']:
+        res['status'] = 'fail'
+    res['wall_s'] = round(time.time() - t0, 1)
+    res['checker_cmd'] = 'tools/instrprobe (built against the current tree): %s cases' % m.group(1)
+    return res
+
+
+def check_dishonest_host_full(prop, tier, repo, verif):
+    t0 = time.time()
+    res = {'unit': 'bounded:dishonest_host_full', 'engine': 'bounded run of the real assembler + processor with a dishonest Host / advice provider (tools/hostprobe, release build with debug assertions)', 'status': 'ok',
+           'failures': [], 'undecided': [], 'bounded': True,
+           'bound': 'about 250000 runs: u32clz / ctz / clo / cto (268 operands x hints 0..64 and large field elements), ilog2 (469 operands), ext2inv, ext2div (wrong inverses incl. scaled ones), u64 div / mod / divmod (wrong quotient / remainder families), mtree_get / mtree_set / mtree_verify (wrong / truncated / over-long paths, wrong indices and depths, 9412 runs each): every run that completes must leave the correct result; the honest host must succeed on valid operands; control runs feed the correct hint through the dishonest channel; order of adv_push.1..16 / adv_loadw / adv_pipe'}
+    binp, err = build_tool(repo, verif, 'hostprobe', release=True)
+    if binp is None:
+        res['status'] = 'undecided'
+        res['undecided'].append('hostprobe does not build against the current tree: ' + err)
+        return res
+    p = subprocess.run([binp], stdout=subprocess.PIPE, stderr=subprocess.PIPE, text=True)
+    m = re.search(r'SUMMARY ok=(true|false)', p.stdout)
+    if not m:
+        res['status'] = 'undecided'
+        res['undecided'].append('hostprobe gave no summary (panic?): ' + (p.stdout + p.stderr)[-500:])
+        return res
+    for ln in p.stdout.split('\n'):
+        mm = re.match(r'FAILCASE (.*?) :: (\d+) violations :: (.*)', ln)
+        if mm:
+            ins, cnt, first = mm.groups()
+            kind = 'honest-host-fails' if 'honest host' in first else ('control-fails' if 'correct hint via' in first else 'wrong-hint-accepted')
+            res['failures'].append({'obligation': '%s/bounded/dishonest_host_full#%s:%s' % (prop, re.sub(r'[^A-Za-z0-9_]+', '-', ins), kind), 'message': '%s: %s (%s violations)' % (ins, kind, cnt),
+                                    'rendered': ln[:1800], 'origins': ['assembly/src/assembler/instruction', 'processor/src/operations/crypto_ops.rs', 'processor/src/host/advice', 'stdlib/asm/math/u64.masm'],
+                                    'failing_input': {'instruction': ins, 'case': first[:900], 'cmd': '.cache/target/release/hostprobe'}})
+        mm = re.match(r'\[BASELINE\] (.*)', ln)
+        if mm:
+            res['failures'].append({'obligation': '%s/bounded/dishonest_host_full#baseline' % prop, 'message': 'wrong hint accepted: ' + mm.group(1)[:200], 'rendered': ln[:1500], 'origins': []})
+    if m.group(1) == 'false' and not res['failures']:
+        res['failures'].append({'obligation': '%s/bounded/dishonest_host_full#fail' % prop, 'message': 'hostprobe failed', 'rendered': p.stdout[-800:], 'origins': []})
+    if res['failures']:
+        res['status'] = 'fail'
+    res['wall_s'] = round(time.time() - t0, 1)
+    res['checker_cmd'] = 'tools/hostprobe (built against the current tree)'
     return res
